@@ -113,6 +113,17 @@ CLAIMED.update({
    technique="translation to a deep embedding + Coq evaluation over a finite domain + invariant by induction over histories + fresh-process differential on /repo",
    ref="4 (C10)"),
 })
+CLAIMED.update({
+ "C07": dict(
+   text="Coq proofs: (a) the SPARQL text written for a SHACL path is read back by the SPARQL 1.1 property-path grammar (recursive-descent model, rules 88-94) as exactly that path, for every well-formed path of any nesting; "
+        "(b) the batched `OPTIONAL {$f_i PATH ?v_i}` query, modelled as a chain of LeftJoins over disjoint variables, yields in column i exactly the solutions of pattern i for any number of focus nodes and solutions; "
+        "(c) composed with C03: per focus node the sparql_mode value nodes equal the in-memory ones as sets, and the look-ups of the equals/disjoint/lessThan twins and the sh:class ASK agree with the in-memory definitions - under the stated assumption that the engine answers a path pattern by the SPARQL path relation; "
+        "(d) Tie A: no Write event in any sparql_mode run of the generated Validator.run program. On the real code: printer and rdflib-parser correspondence, rdflib's result table vs the LeftJoin model, and the two-mode differential of validate() over core components with complex paths, nested shapes, SPARQL constraints and SPARQL targets, with data-graph snapshots.",
+   note="Trusted: Coq kernel + vm_compute; hand-written models of the path printer/grammar and of LeftJoin (tied by correspondence); the engine assumption above (checked against rdflib by the differential; one listed known finding: rdflib MulPath truthiness). "
+        "Not modelled: the VALUES-based target query, the closed twin's query and the per-row post-processing of the twins (two-mode differential only). Holds after fix commits cc855f9 (path text) and 3e96e57 (closed twin) in /repo.",
+   technique="Coq proof (parser round trip by induction on paths with fuel bounds; LeftJoin chain invariant; composition with C03) + Tie-A evaluation + printer/parser/engine correspondence + two-mode differential on /repo",
+   ref="4 (C07)"),
+})
 NOT_YET = {}
 ALL = ["C%02d" % i for i in range(1, 21)]
 REASONS = {}
